@@ -10,7 +10,8 @@ import tlc
 from session import Trace
 
 LEVEL = 'model_checking'
-RULE = ('spec/impl/ImplParser.tla transcribes RespParser::parse/parse_frame; TLC enumerates every byte string over 17 '
+RULE = ('spec/impl/ImplParser.tla transcribes RespParser::parse/parse_frame; TLC checks the round trip Ser -> parse on 11,823 '
+        'frame trees (MC_RoundTrip) and enumerates every byte string over 17 '
         'protocol symbols up to length 5 (quick) / 6 (thorough) as one state each and checks Total, PrefixStable (an answer '
         'given for a prefix never changes when more bytes arrive), TrailNeutral and ChunkIndependent (all 2^(n-1) chunkings) '
         'on the design with the repaired raw-PING case (FixedPing=TRUE); the transcription of the code as it is '
@@ -24,8 +25,8 @@ RULE = ('spec/impl/ImplParser.tla transcribes RespParser::parse/parse_frame; TLC
 ASSUMPTIONS = ['the private read offset of RespParser is observed indirectly: a sentinel frame fed after the input must come out next',
                'doubles are compared by bit pattern; only the canonical quiet NaN is generated (RESP3 has a single nan)',
                'simple strings / errors containing CR or LF are not RESP values and are not generated',
-               'strings of length 6 (thorough) are compared across chunkings inside the harness (mode diff); only differing '
-               'strings become events',
+               'thorough: the 25.5 M strings of length 5 and 6 are compared across chunkings inside the harness (mode diff); only '
+               'strings whose runs differ or exceed the allocation bound become events for TLC (lengths 0-4: every string is an event)',
                'peak heap is measured by a counting global allocator around the calls into the parser (its buffer, '
                'temporaries and returned frames)']
 
@@ -80,10 +81,11 @@ class Codec:
     def died(self):
         rc = self.p.wait()
         self.errf.close()
-        tail = open(self.errpath, 'rb').read()[-600:].decode(errors='replace')
+        err = open(self.errpath, 'rb').read()[:200000].decode(errors='replace')
         self.p = None
         self.restarts += 1
-        return rc, tail
+        m = re.search(r'memory allocation of \d+ bytes failed|has overflowed its stack|panicked at [^\n]*\n[^\n]*', err)
+        return rc, (m.group(0) if m else err[-200:]).replace('\n', ' ')
 
     def request(self, req, until=None):
         """-> (lines, None) or (partial lines, crash info).  A death is confirmed by a second attempt in a
@@ -98,8 +100,7 @@ class Codec:
             return lines, None
         rc, tail = self.died()
         what = 'signal %d' % -rc if rc < 0 else 'exit status %d' % rc
-        m = re.search(r'(memory allocation of \d+ bytes failed|panicked at [^\n]*\n[^\n]*|has overflowed its stack)', tail)
-        return lines, {'rc': rc, 'how': what, 'stderr': (m.group(1) if m else tail[-200:]).replace('\n', ' ')}
+        return lines, {'rc': rc, 'how': what, 'stderr': tail}
 
 
 # ------------------------------------------------------------------------------------------------
@@ -278,6 +279,7 @@ class Recorder:
             return
         label = self.label
         rounds = 0
+        base = tr.path.replace('.ndjson', '')
         while True:
             ok = self.ctx.validate(tr, label=label, module='CodecTrace')
             if ok:
@@ -286,6 +288,11 @@ class Recorder:
             i = info['rejected_at']
             lines = open(tr.path).read().split('\n')
             ev = json.loads(lines[i - 1])
+            # the replayable trace of this violation is the rejected event alone (events are independent)
+            open(info['trace'], 'w').write(lines[i - 1] + '\n')
+            info['rejected_at'] = 1
+            info['what'] = summary(ev)
+            json.dump(info, open(self.ctx.violations[-1][1], 'w'), indent=1)
             self.rejected.append((label, summary(ev)))
             self.ctx.violations[-1] = ('%s: %s' % (label, summary(ev)), self.ctx.violations[-1][1])
             rest = [x for x in lines[i:] if x]
@@ -293,9 +300,14 @@ class Recorder:
             if not rest:
                 return
             if rounds >= MAX_REJECTIONS:
-                self.ctx.note('%s: more than %d rejections, %d events not examined' % (label, MAX_REJECTIONS, len(rest)))
+                cls = {}
+                for x in rest:
+                    w = summary(json.loads(x)).split(' ')[0]
+                    cls[w] = cls.get(w, 0) + 1
+                self.ctx.note('%s: more than %d rejections; %d further events not submitted to TLC (harness-side classes: %s)'
+                              % (label, MAX_REJECTIONS, len(rest), cls))
                 return
-            nt = Trace(tr.path.replace('.ndjson', '') + '-r%d.ndjson' % rounds)
+            nt = Trace('%s-r%d.ndjson' % (base, rounds))
             nt.f.write('\n'.join(rest) + '\n')
             nt.close()
             nt.n = 0          # already counted
@@ -434,6 +446,8 @@ def run(ctx):
     # (a) the design: the transcription with the repaired PING case satisfies the properties
     ctx.model_check('MC_Parser', 'MC_Parser_fixed_N6' if thorough else 'MC_Parser_fixed_N5', workers=12, timeout=1500,
                     subdir='impl')
+    # round trip on the design: Ser (spec/RespCodec.tla) against the transcription, 11,823 trees up to depth 3
+    ctx.model_check('MC_RoundTrip', 'MC_RoundTrip', workers=4, timeout=1500, subdir='impl')
     cex = extract_counterexamples(ctx)
 
     codec = Codec(ctx)
@@ -449,9 +463,8 @@ def run(ctx):
         s = rec.enumerate(4, 0, 'all', chunkings='all')
         cases = s['strings'] if s else 0
         if thorough:
-            s = rec.enumerate(5, 5, 'all')
-            cases += s['strings'] if s else 0
-            s = rec.enumerate(6, 6, 'diff')
+            rec.begin('enum56')   # only strings whose runs differ come back: each of them will be rejected
+            s = rec.enumerate(6, 5, 'diff')
             cases += s['strings'] if s else 0
         ctx.extra_cov['enumerated_strings'] = cases
         # (b3) frame trees
